@@ -126,6 +126,15 @@ def search_case(k, rng, nq):
     # make sure every stored lemma is asked for exactly, without a lemmatizer
     for w in words:
         qs.append(['words', w[3], '~', rng.random() < 0.5, rng.random() < 0.5, 'none'])
+    # inflected / re-cased variants of stored forms through the lemmatizers, so that
+    # some candidate groups match exactly while others match only after normalisation
+    stored = sorted({w[3] for w in words} | {f for w in words for f in w[4]})
+    for f in stored:
+        for q in {f, f.capitalize(), f + 's', f.capitalize() + 's', f.upper(), '!' + f.capitalize()}:
+            for lem in ('custom', 'morphy_u', 'morphy_i'):
+                if rng.random() < 0.5:
+                    qs.append([rng.choice(['words', 'senses', 'synsets']), q,
+                               rng.choice(['~', '~', 'n', 'v']), True, rng.random() < 0.7, lem])
     return {'id': k, 'words': words, 'synpos': sorted(synpos.items()), 'scope': scope, 'queries': qs}
 
 
